@@ -61,15 +61,18 @@ for idx in ("last", "first", "middle"):
 LOADERS = ("c", "py")
 
 
+ARG2 = [7]  # second payload argument; varied per case (7, 7.0, "7", b"7") by run_shard
+
+
 def apply_mode(p, mode, kw):
     if mode == "insert_python":
-        p.insert_python(PAYLOAD_TAG, 7, module="verif_sink", attr="sink", **kw)
+        p.insert_python(PAYLOAD_TAG, ARG2[0], module="verif_sink", attr="sink", **kw)
     elif mode == "insert_python_eval":
         p.insert_python_eval(EVAL_SRC, **kw)
     elif mode == "insert_python_exec":
         p.insert_python_exec(EXEC_SRC, **kw)
     elif mode == "append_python":
-        p.append_python(PAYLOAD_TAG, 7, module="verif_sink", attr="sink", **kw)
+        p.append_python(PAYLOAD_TAG, ARG2[0], module="verif_sink", attr="sink", **kw)
     elif mode == "function_call":
         p.insert_function_call_on_unpickled_object(
             FN_SRC, constant_args=kw["constant_args"], compile_code=kw["compile_code"]
@@ -152,7 +155,7 @@ def check(data, mode, kw, loader):
         return None, "base-rejected"
     if loader == "py" and base["framed"]:
         return None, "framed-skipped-for-pure-python"
-    case = {"hex": data.hex(), "mode": mode, "kw": kw, "loader": loader}
+    case = {"hex": data.hex(), "mode": mode, "kw": kw, "loader": loader, "arg2": repr(ARG2[0])}
     try:
         p = Pickled.load(data)
         apply_mode(p, mode, kw)
@@ -197,10 +200,10 @@ def check(data, mode, kw, loader):
         args, kws = payload_calls[0]
         want_args = (PAYLOAD_TAG,)
         if mode in ("insert_python", "append_python"):
-            want_args = (PAYLOAD_TAG, 7)
+            want_args = (PAYLOAD_TAG, ARG2[0])
         if mode == "function_call" and kw["constant_args"]:
             want_args = (PAYLOAD_TAG,) + tuple(kw["constant_args"])
-        if args != want_args or kws:
+        if not values.deep_equal(args, want_args) or kws:
             return fail(f"injected call received {args!r} {kws!r}, expected {want_args!r}")
     if base_calls != base["log"]:
         return fail(f"base effects changed: {base_calls!r} vs original {base['log']!r}")
@@ -215,12 +218,12 @@ def check(data, mode, kw, loader):
     if mode in ("insert_python", "insert_python_eval", "insert_python_exec"):
         if kw["use_output_as_unpickle_result"]:
             want = None if mode == "insert_python_exec" else (
-                sink_ret(PAYLOAD_TAG, 7) if mode == "insert_python" else sink_ret(PAYLOAD_TAG)
+                sink_ret(PAYLOAD_TAG, ARG2[0]) if mode == "insert_python" else sink_ret(PAYLOAD_TAG)
             )
         else:
             want = base["value"]
     elif mode == "append_python":
-        want = base["value"] if kw["pop_result"] else sink_ret(PAYLOAD_TAG, 7)
+        want = base["value"] if kw["pop_result"] else sink_ret(PAYLOAD_TAG, ARG2[0])
     elif mode == "function_call":
         want = ("wrapped", base["value"])
     else:
@@ -267,7 +270,13 @@ def replay(case):
         return kf_c08_1()
     if case.get("kf") == "KF-C08-2":
         return kf_c08_2()
-    return check(bytes.fromhex(case["hex"]), case["mode"], case["kw"], case["loader"])[0]
+    import ast as _ast
+
+    ARG2[0] = _ast.literal_eval(case.get("arg2", "7"))
+    try:
+        return check(bytes.fromhex(case["hex"]), case["mode"], case["kw"], case["loader"])[0]
+    finally:
+        ARG2[0] = 7
 
 
 HARMLESS_GLOBS = (
@@ -332,7 +341,9 @@ def run_shard(spec, seed):
         if base_ok(data) is None:
             res.note(data, False, klass=["base-rejected", kind])
             return None
-        for mode, kw in MODES:
+        for mi, (mode, kw) in enumerate(MODES):
+            # numerically equal arguments of different types in successive injections
+            ARG2[0] = (7, 7.0, "7", 7, b"7")[(mi + len(data)) % 5]
             for loader in LOADERS:
                 if mode == "function_call" and loader == "py":
                     res.excluded["KF-C08-1 function-call helper under pure-Python unpickler"] += 1
